@@ -132,6 +132,9 @@ func (o *OCIDir) manifestGet(_ context.Context, r ref.Ref) (manifest.Manifest, e
 	if err != nil {
 		return nil, fmt.Errorf("failed to read manifest: %w", err)
 	}
+	if len(mb) == 0 {
+		return nil, fmt.Errorf("failed to read manifest: empty file %s%.0w", file, errs.ErrShortRead)
+	}
 	if desc.Size == 0 {
 		desc.Size = int64(len(mb))
 	}
